@@ -6,7 +6,7 @@ from pyvc.core import (INT, BOOL, V, NONE, ABSENT, Seq, seq_eq, filter_seq, Enum
                        is_str, Unsupported, PyRaise)
 from pyvc.interp import Instance, ClassObj
 from pyvc import models as M
-from pyvc.models_np import NDArr, KINDS, KCODE, kind_is, kind_term, ghost, is_nan, is_nat
+from pyvc.models_np import NDArr, KINDS, KCODE, kind_is, kind_term, ghost, is_nan, is_nat, no_input_writes
 from pyvc.models_dict import OMap, Family, Entry
 from pyvc.loops import merge
 
@@ -191,7 +191,7 @@ def rows_of(cx, result, self_, r, what="rows"):
     cx.prove(f"{what}:dtype-kind-kept", kind_term(col.kind) == sym["kind"](c))
     cx.prove("fresh:result-columns-are-new-buffers", col.freshness())
     cx.prove("result-columns-are-DataFrameColumns", col.cls is not None and col.cls.name == "DataFrameColumn")
-    cx.prove("frame:no-write-into-input-buffers", not ghost(ctx)["input_writes"])
+    cx.prove("frame:no-write-into-input-buffers", no_input_writes(ctx))
     cx.prove("frame:receiver-grouping-untouched", self_.attrs.get("_group_colnames") == ())
 
 
@@ -588,7 +588,7 @@ def col_same(cx, col, self_, p, what):
 
 
 def common_frame_clauses(cx, result, self_):
-    cx.prove("frame:no-write-into-input-buffers", not ghost(cx.ctx)["input_writes"])
+    cx.prove("frame:no-write-into-input-buffers", no_input_writes(cx.ctx))
     cx.prove("frame:receiver-grouping-untouched", self_.attrs.get("_group_colnames") == ())
     cx.prove("frame:receiver-columns-untouched", isinstance(self_.base, OMap) and len(self_.base.segs) == 1
              and self_.base.segs[0] is self_.sym["family"])
@@ -1026,7 +1026,7 @@ class ColnamesSetterDF(_DF):
         ph = cx.it.class_attr(self_.cls, "COLUMN_PLACEHOLDER")[1]
         stale = [a for a, v in self_.attrs.items() if v is ph and a not in new]
         cx.prove("no stale attribute placeholder for a removed name", not stale)
-        cx.prove("frame:no-write-into-column-buffers", not ghost(cx.ctx)["input_writes"])
+        cx.prove("frame:no-write-into-column-buffers", no_input_writes(cx.ctx))
 
 
 # =========================================================================================
@@ -1781,3 +1781,145 @@ class FullJoinBounded(_DF):
         node = RepoModule.load(F, cx.it.repo).find("DataFrame.full_join")[0]
         called = {n.func.attr for n in _a.walk(node) if isinstance(n, _a.Call) and isinstance(n.func, _a.Attribute)}
         cx.prove("structure: delegates to left_join, anti_join, rbind, sort", {"left_join", "anti_join", "rbind", "sort"} <= called)
+
+
+# =========================================================================================
+# C03: sort
+# =========================================================================================
+def vector_rank_contract(it, args, kwargs):
+    """Callee contract of Vector.rank(method="min") as used by DataFrame.sort (the rank formulas are checked by the
+    bounded contract of C11): integer ranks that embed the order - missing values rank after all others, ties share a rank."""
+    from pyvc.core import v_lt
+    a = args[0]
+    if kwargs.get("method", "min") != "min":
+        raise Unsupported("rank contract: method other than 'min'")
+    ctx = it.ctx
+    s = a.seq
+    rk = ctx.fresh_fn("rankmin", INT, INT)
+    i, j = z3.Ints("i!rk j!rk")
+    na = lambda t: na_formula(it, a.kind, s.at(t))
+    before = lambda p, q: z3.And(z3.Not(na(p)), z3.Or(na(q), v_lt(s.at(p), s.at(q))))
+    ctx.assumptions.append(z3.ForAll([i, j], z3.Implies(z3.And(in_range(i, s.len), in_range(j, s.len)),
+                                                        (rk(i) < rk(j)) == before(i, j)), patterns=[z3.MultiPattern(rk(i), rk(j))]))
+    ctx.used_models.add("Vector.rank(method='min') embeds the order, missing values last (formulas: bounded contract of C11)")
+    return NDArr(ctx, Seq(s.len, lambda t: rk(t), INT), "int", "fresh", a.cls)
+
+
+SORT_CALLEES = dict(DF_CALLEES)
+from contracts.vector import optimize_for_argsort_contract as _opt_contract
+SORT_CALLEES.update({"Vector.rank": vector_rank_contract, "Vector._optimize_for_argsort": _opt_contract})
+
+
+def comparable_column(cx, self_, p):
+    """the non-missing elements of key column p are mutually comparable (strict total order)"""
+    from pyvc.core import v_lt
+    ctx = cx.ctx
+    x, y, z = z3.Consts("x!to y!to z!to", V)
+    done = ctx.__dict__.setdefault("_order_axioms", False)
+    if not done:
+        ctx.__dict__["_order_axioms"] = True
+        ctx.assumptions.append(z3.ForAll([x], z3.Not(v_lt(x, x)), patterns=[v_lt(x, x)]))
+        ctx.assumptions.append(z3.ForAll([x, y, z], z3.Implies(z3.And(v_lt(x, y), v_lt(y, z)), v_lt(x, z)),
+                                         patterns=[z3.MultiPattern(v_lt(x, y), v_lt(y, z))]))
+    i, j = z3.Ints("i!cc j!cc")
+    e = lambda t: self_.sym["elem"](p, t)
+    n = self_.sym["nrow"]
+    ctx.assumptions.append(z3.ForAll([i, j], z3.Implies(z3.And(in_range(i, n), in_range(j, n), e(i) != e(j)),
+                                                        z3.Or(v_lt(e(i), e(j)), v_lt(e(j), e(i)))),
+                                     patterns=[z3.MultiPattern(e(i), e(j))]))
+
+
+class _SortDF(_DF):
+    """DataFrame.sort: a permutation of whole rows, ordered lexicographically by the keys in the requested directions
+    (numbers numerically, strings by code point, dates chronologically, False before True), stable; missing keys are
+    grouped at one end of their tie group - the end, when the key is ascending."""
+    qualname, prop = "DataFrame.sort", "C03"
+    also = ("C01", "C06")
+    callees = SORT_CALLEES
+    dirs = (1,)
+    timeout_ms = 20000
+
+    def setup(self, cx):
+        self_ = sym_frame(cx, "self")
+        typed_elements(cx, self_)
+        names = ["k1", "k2"][:len(self.dirs)]
+        ps = [named_column(cx, self_, nm) for nm in names]
+        marker = M.to_v(cx.it, "\U0010ffff")
+        jj = z3.Int("j!mk")
+        from pyvc.core import v_lt
+        for p in ps:
+            comparable_column(cx, self_, p)
+            # U+10FFFF (a noncharacter) is the highest code point: every string value sorts before it
+            isstr = z3.Or(self_.sym["kind"](p) == KCODE["string"], self_.sym["kind"](p) == KCODE["fixedstr"])
+            e_ = self_.sym["elem"](p, jj)
+            cx.ctx.assumptions.append(z3.ForAll([jj], z3.Implies(z3.And(isstr, in_range(jj, self_.sym["nrow"])),
+                                                                 z3.And(e_ != marker, v_lt(e_, marker))), patterns=[e_]))
+            # kinds the property covers (bytes and unsigned are outside its dtype list)
+            cx.assume(z3.And(self_.sym["kind"](p) != KCODE["bytes"], self_.sym["kind"](p) != KCODE["uint"]))
+        return {"self": self_, "kwargs": dict(zip(names, self.dirs)), "ps": ps}
+
+    def ensures(self, cx, result):
+        from pyvc.core import v_lt
+        ctx, it = cx.ctx, cx.it
+        self_ = cx.inputs["self"]
+        sym = self_.sym
+        n = sym["nrow"]
+        pm = it.__dict__.get("last_lexsort")
+        cx.prove("ghost:lexsort-permutation-available", pm is not None)
+        if pm is None:
+            return
+        r = Seq(n, lambda j: pm.perm(j), INT)
+        rows_of(cx, result, self_, r)
+        a, b = ctx.fresh("a", INT), ctx.fresh("b", INT)
+        cx.prove("permutation: every row exactly once",
+                 z3.Implies(in_range(a, n), z3.And(in_range(pm.perm(a), n), pm.inv(pm.perm(a)) == a, in_range(pm.inv(a), n), pm.perm(pm.inv(a)) == a)))
+
+        def before(q, x, y):
+            p, d = cx.inputs["ps"][q], self.dirs[q]
+            k = sym["kind"](p)
+            ex, ey = sym["elem"](p, x), sym["elem"](p, y)
+            nx, ny = na_formula(it, k, ex), na_formula(it, k, ey)
+            if d > 0:
+                return z3.And(z3.Not(nx), z3.Or(ny, v_lt(ex, ey)))
+            na_last = z3.Or(k == KCODE["float"], k == KCODE["timedelta"])      # where the code puts missing keys when descending
+            val = z3.And(z3.Not(nx), z3.Not(ny), v_lt(ey, ex))
+            return z3.Or(val, z3.If(na_last, z3.And(z3.Not(nx), ny), z3.And(nx, z3.Not(ny))))
+
+        def lex(q, x, y):
+            if q == len(self.dirs):
+                return z3.BoolVal(False)
+            return z3.Or(before(q, x, y), z3.And(z3.Not(before(q, y, x)), lex(q + 1, x, y)))
+        rng = z3.And(0 <= a, a < b, b < n)
+        cx.prove("ordered: no later row sorts strictly before an earlier one", z3.Implies(rng, z3.Not(lex(0, pm.perm(b), pm.perm(a)))))
+        cx.prove("stable: rows equal on all keys keep their original order",
+                 z3.Implies(z3.And(rng, z3.Not(lex(0, pm.perm(a), pm.perm(b)))), pm.perm(a) < pm.perm(b)))
+
+
+@register
+class SortDFAsc(_SortDF):
+    variant, dirs = "one key ascending", (1,)
+
+
+@register
+class SortDFDesc(_SortDF):
+    variant, dirs = "one key descending", (-1,)
+
+
+@register
+class SortDFAscAsc(_SortDF):
+    variant, dirs = "two keys asc,asc", (1, 1)
+
+
+@register
+class SortDFAscDesc(_SortDF):
+    variant, dirs = "two keys asc,desc", (1, -1)
+
+
+@register
+class SortDFDescAsc(_SortDF):
+    variant, dirs = "two keys desc,asc", (-1, 1)
+
+
+@register
+class SortDFDescDesc(_SortDF):
+    variant, dirs = "two keys desc,desc", (-1, -1)
